@@ -29,7 +29,8 @@ OBLIGATIONS = ["NiftyVerif.C26." + t for t in (
     "save_overwrite_succeeds", "load_partition_independent", "welford_mean", "welford_var", "n1_variance_zero",
     "sample_stat_spec", "welford_merge", "refused_save_changes_nothing", "refused_on_nonempty_fresh",
     "refused_save_then_load", "nonoverwrite_write_preserves_existing")]
-RULE = ("history = sequence of save(list length 0..6, task partition, overwrite?, residual?) / load(task count) ops on 1-3 "
+RULE = ("export matrix: ALL combinations of save_to_hdf5 flags {samples, mean, std} x op {None, linear, non-linear} x "
+        "{plain, residual list} x {field, multi-field} x n in {1,2,5}; history = sequence of save(list length 0..6, task partition, overwrite?, residual?) / load(task count) ops on 1-3 "
         "bases in one directory, task counts 0(comm=None),1..4 on either side; non-trivial = a shorter list saved over a "
         "longer one, or different task counts on the two sides, or a refused save; distinct by history. "
         "stat cases: dyadic sequences of length 0..9, plain/multi-field, with and without operator")
@@ -225,6 +226,8 @@ def oracle(case):
         return _property_check(case, _assemble(res, 0, case))
     if case.get("kind") == "stat":
         return _stat_oracle(case)
+    if case.get("kind") == "export":
+        return _export_oracle(case)
     return None
 
 
@@ -243,6 +246,15 @@ def shrink(case):
         xs = case["xs"]
         for i in range(len(xs)):
             yield dict(case, xs=xs[:i] + xs[i + 1:])
+    elif case.get("kind") == "export":
+        xs = case["xs"]
+        for i in range(len(xs)):
+            if len(xs) > 2:
+                yield dict(case, xs=xs[:i] + xs[i + 1:])
+        if case["multi"]:
+            yield dict(case, multi=False)
+        if case["residual"]:
+            yield dict(case, residual=False)
 
 
 # ------------------------------------------------------------------------------------------------------
@@ -411,13 +423,30 @@ def _dist_job(comm, cases, root):
                      "avg": sl.average().val.asnumpy().tolist()}
                 fn = os.path.join(root, f"d{ci}.h5")
                 sl.save_to_hdf5(fn, samples=True, mean=True, std=len(c["xs"]) > 1)
+                import h5py
                 if r == 0:
-                    import h5py
                     with h5py.File(fn, "r") as f:
                         o["h5_mean"] = np.array(f["stats/mean"]).tolist()
                         if len(c["xs"]) > 1:
                             o["h5_std"] = np.array(f["stats/standard deviation"]).tolist()
                         o["h5_samples"] = [np.array(f["samples"][str(i)]).tolist() for i in range(len(c["xs"]))]
+                # a second export through a NON-LINEAR operator with another combination of flags
+                S = ift.ScalingOperator(dom, 0.125)
+                opx = S.exp() + S * S
+                flags = EXPORT_FLAGS[1:][ci % 7]
+                fnx = os.path.join(root, f"x{ci}.h5")
+                sl.save_to_hdf5(fnx, op=opx, samples=flags[0], mean=flags[1], std=flags[2])
+                if r == 0:
+                    with h5py.File(fnx, "r") as f:
+                        hx = {"flags": list(flags), "groups": sorted(f.keys())}
+                        if "samples" in f:
+                            hx["samples"] = [np.array(f["samples"][str(i)]).tolist() for i in range(len(f["samples"].keys()))]
+                        if "stats" in f:
+                            hx["stats"] = sorted(f["stats"].keys())
+                            for key, name in (("mean", "mean"), ("std", "standard deviation")):
+                                if name in f["stats"]:
+                                    hx[key] = np.array(f["stats"][name]).tolist()
+                        o["h5x"] = hx
             except fm.FakeMPIError:
                 raise
             except Exception as e:  # noqa: BLE001
@@ -463,6 +492,26 @@ def _dist_judge(c, per):
         return (f"HDF5 standard deviation {o['h5_std']} != {math.sqrt(v)}", dict(sig, what="h5-std"))
     if o["h5_samples"] != [[x, 2 * x + 1] for x in xs]:
         return (f"HDF5 samples {o['h5_samples']} are not the samples in global order", dict(sig, what="h5-samples"))
+    # the export through the non-linear operator: statistics of the operator OUTPUTS
+    import numpy as np
+    hx = o["h5x"]
+    flags = hx["flags"]
+    outs = [(np.exp(0.125 * np.array([x, 2 * x + 1])) + (0.125 * np.array([x, 2 * x + 1])) ** 2).tolist() for x in xs]
+    want_groups = sorted((["samples"] if flags[0] else []) + (["stats"] if (flags[1] or flags[2]) else []))
+    if hx["groups"] != want_groups:
+        return (f"distributed save_to_hdf5{tuple(flags)}: groups {hx['groups']} != {want_groups}", dict(sig, what="h5x-groups"))
+    if flags[0] and not all(_close(a, b, 1.0) for row, wrow in zip(hx["samples"], outs) for a, b in zip(row, wrow)):
+        return (f"distributed save_to_hdf5{tuple(flags)} through a non-linear operator: samples are not op(sample_i)", dict(sig, what="h5x-samples"))
+    for j in range(2):
+        col = [w[j] for w in outs]
+        mj, vj = _frac_stats(col)
+        scj = max(abs(t) for t in col) + 1.0
+        if flags[1] and not _close(hx["mean"][j], mj, scj):
+            return (f"distributed save_to_hdf5{tuple(flags)} (partition {c['counts']}) through a non-linear operator: exported mean "
+                    f"{hx['mean']} is not the arithmetic mean of the operator outputs ({float(mj)} at entry {j})", dict(sig, what="h5x-mean"))
+        if flags[2] and not _close(hx["std"][j], math.sqrt(vj), scj):
+            return (f"distributed save_to_hdf5{tuple(flags)} through a non-linear operator: exported standard deviation {hx['std']} "
+                    f"is not sqrt(unbiased variance of the operator outputs) ({math.sqrt(vj)} at entry {j})", dict(sig, what="h5x-std"))
     return None
 
 
@@ -473,6 +522,107 @@ def _run_dist(cases):
     finally:
         shutil.rmtree(root, ignore_errors=True)
     return res
+
+
+# ---- the full export matrix -------------------------------------------------------------------------------------------
+EXPORT_FLAGS = [(sa, me, sd) for sa in (False, True) for me in (False, True) for sd in (False, True)]
+EXPORT_OPS = ("none", "linear", "nonlinear")
+
+
+def _export_case(xs, flags, opkind, residual, multi):
+    """save_to_hdf5 with one combination of {samples, mean, std} x op x list type x field type on the real code.
+    Returns (what the file contains, the operator outputs per sample as flat float lists)"""
+    import numpy as np
+    import h5py
+    import nifty.cl as ift
+    dom = ift.UnstructuredDomain(2)
+
+    def mk(x):
+        f = ift.makeField(dom, np.array([x, 0.5 * x - 0.25]))
+        return ift.MultiField.from_dict({"u": f, "w": 0.5 * f + 1.}) if multi else f
+    samples = [mk(x) for x in xs]
+    if multi:
+        U, W = ift.FieldAdapter(dom, "u"), ift.FieldAdapter(dom, "w")
+        op = {"none": None, "linear": U + 2. * W, "nonlinear": U.exp() * W}[opkind]
+    else:
+        S = ift.ScalingOperator(dom, 1.)
+        op = {"none": None, "linear": ift.ScalingOperator(dom, 3.), "nonlinear": S.exp() + S * S}[opkind]
+    if residual:
+        mean = mk(0.375)
+        neg = [i % 2 == 1 for i in range(len(xs))]
+        sl = ift.ResidualSampleList(mean, [(mean - smp) if ng else (smp - mean) for smp, ng in zip(samples, neg)], neg)
+        samples = list(sl.iterator())          # what the list itself says its samples are
+    else:
+        sl = ift.SampleList(samples)
+
+    def flat(obj):
+        if isinstance(obj, ift.MultiField):
+            return [float(t) for k in sorted(obj.keys()) for t in obj[k].val.asnumpy().ravel()]
+        return [float(t) for t in obj.val.asnumpy().ravel()]
+
+    def hflat(node):
+        if isinstance(node, h5py.Group):
+            return [float(t) for k in sorted(node.keys()) for t in np.array(node[k]).ravel()]
+        return [float(t) for t in np.array(node).ravel()]
+    outputs = [flat(smp if op is None else op.force(smp)) for smp in samples]
+    d = tempfile.mkdtemp(prefix="c26x_")
+    got = {}
+    try:
+        fn = os.path.join(d, "x.h5")
+        try:
+            sl.save_to_hdf5(fn, op=op, samples=flags[0], mean=flags[1], std=flags[2])
+        except Exception as e:  # noqa: BLE001
+            return {"error": type(e).__name__}, outputs
+        with h5py.File(fn, "r") as f:
+            got["groups"] = sorted(f.keys())
+            if "samples" in f:
+                got["samples"] = [hflat(f["samples"][str(i)]) for i in range(len(f["samples"].keys()))]
+            if "stats" in f:
+                got["stats"] = sorted(f["stats"].keys())
+                if "mean" in f["stats"]:
+                    got["mean"] = hflat(f["stats/mean"])
+                if "standard deviation" in f["stats"]:
+                    got["std"] = hflat(f["stats/standard deviation"])
+    finally:
+        shutil.rmtree(d, ignore_errors=True)
+    return got, outputs
+
+
+def _export_oracle(case):
+    """exported mean / standard deviation == exact arithmetic mean / sqrt(unbiased variance) of the operator OUTPUTS;
+    exported samples == the outputs; groups present exactly as requested"""
+    import math
+    xs, flags = case["xs"], tuple(case["flags"])
+    got, outs = _export_case(xs, flags, case["op"], case["residual"], case["multi"])
+    sig = {"site": "save_to_hdf5", "flags": "".join("1" if f else "0" for f in flags), "op": case["op"]}
+    if not any(flags):
+        if got != {"error": "ValueError"}:
+            return (f"save_to_hdf5 with nothing requested does not raise ValueError: {got}", dict(sig, what="no-flags"))
+        return None
+    if "error" in got:
+        return (f"save_to_hdf5{flags} op={case['op']} raises {got['error']}", dict(sig, what="raises"))
+    n, width = len(outs), len(outs[0])
+    want_groups = sorted((["samples"] if flags[0] else []) + (["stats"] if (flags[1] or flags[2]) else []))
+    if got["groups"] != want_groups:
+        return (f"save_to_hdf5{flags}: groups {got['groups']}, expected {want_groups}", dict(sig, what="groups"))
+    if flags[0] and got["samples"] != outs:
+        return (f"save_to_hdf5{flags} op={case['op']}: exported samples are not op(sample_i) in order", dict(sig, what="samples"))
+    if flags[1] or flags[2]:
+        want_stats = sorted((["mean"] if flags[1] else []) + (["standard deviation"] if flags[2] else []))
+        if got["stats"] != want_stats:
+            return (f"save_to_hdf5{flags}: stats entries {got['stats']}, expected {want_stats}", dict(sig, what="stats-entries"))
+    for j in range(width):
+        col = [o[j] for o in outs]
+        m, v = _frac_stats(col)
+        sc = max(abs(c) for c in col) + 1.0
+        if flags[1] and not _close(got["mean"][j], m, sc):
+            return (f"save_to_hdf5{flags} op={case['op']} ({'residual' if case['residual'] else 'plain'}, "
+                    f"{'multi' if case['multi'] else 'field'}, n={n}): exported mean[{j}] = {got['mean'][j]!r} but the arithmetic "
+                    f"mean of the operator outputs is {float(m)!r}", dict(sig, what="mean"))
+        if flags[2] and not _close(got["std"][j], math.sqrt(v), sc):
+            return (f"save_to_hdf5{flags} op={case['op']} (n={n}): exported standard deviation[{j}] = {got['std'][j]!r} but "
+                    f"sqrt(unbiased variance of the operator outputs) is {math.sqrt(v)!r}", dict(sig, what="std"))
+    return None
 
 
 def _stat_oracle(case):
@@ -646,6 +796,21 @@ def run(ctx):
         r = _stat_oracle(c)
         if r:
             ctx.counterexample(c, *r)
+    # ---- the full export matrix: {samples, mean, std} x {op None, linear, non-linear} x {plain, residual} x {field,
+    # multi-field} x n in {1, 2, 5}; exported statistics against exact statistics of the operator OUTPUTS ------------------
+    for n in (1, 2, 5):
+        for flags in EXPORT_FLAGS:
+            for opk in EXPORT_OPS:
+                for residual in (False, True):
+                    for multi in (False, True):
+                        c = dict(kind="export", xs=[rng.randrange(-16, 17) / 8.0 for _ in range(n)], flags=list(flags),
+                                 op=opk, residual=residual, multi=multi)
+                        ctx.stat(f"export:flags={''.join('1' if f else '0' for f in flags)}")
+                        ctx.stat(f"export:op={opk}")
+                        ctx.case(c, nontrivial=n >= 2 and opk == "nonlinear")
+                        r = _export_oracle(c)
+                        if r:
+                            ctx.counterexample(c, *r)
     # ---- statistics and HDF5 export of DISTRIBUTED sample lists, against exact values ---------------------------------
     dcases = []
     for i in range(ctx.n(12, 80)):
